@@ -4,4 +4,4 @@ From OlaBase Require Import Bytes.
 From C01 Require Import Gen Time Model.
 Extraction Language OCaml.
 Extraction "model.ml" io_witness N.div_eucl init_world step apply_update live scan changed_source
-  port_sources client_sources new_port tv_isset tv_active.
+  port_sources client_sources new_port tv_isset tv_active step2.
